@@ -441,6 +441,7 @@ def catalogue():
         "compute_mmd": (["dist", "dist"], lambda r, a, b: compute_mmd(a, b, {"sigma": 1.0}), None),
         "clipped_nll": (["dist", "dist"], lambda r, a, b: compute_clipped_negative_log_likelihood(a, b, {"epsilon": 1e-6}), None),
         "jsd": (["dist", "dist"], lambda r, a, b: compute_jensen_shannon_divergence(a, b, {"epsilon": 1e-6}), None),
+        "evaluate_distribution_distance": (["dist", "dist"], lambda r, a, b: _compare(r, a, b), None),
         "dist.save": (["dist"], save_dist, None),
         "wf.get_probabilities": (["wf"], lambda r, w: w.get_probabilities(), None),
         "wf.get_outcome_probs": (["wf"], lambda r, w: w.get_outcome_probs(), None),
@@ -451,13 +452,49 @@ def catalogue():
     return cat
 
 
+class _MeasureFailed(Exception):
+    pass
+
+
+def _compare(rng, a, b):
+    """evaluate_distribution_distance with a measure that succeeds or RAISES (a zero bandwidth, a non-positive clipping
+    constant, a caller's own function that gives up): comparing leaves both distributions as they were either way"""
+    from orquestra.quantum.distributions import (
+        compute_clipped_negative_log_likelihood,
+        compute_jensen_shannon_divergence,
+        compute_mmd,
+        evaluate_distribution_distance,
+    )
+
+    def own(target, measured, parameters):
+        if parameters.get("fail"):
+            raise _MeasureFailed("measure gave up")
+        keys = set(target.distribution_dict) | set(measured.distribution_dict)
+        return sum(abs(target.distribution_dict.get(k, 0) - measured.distribution_dict.get(k, 0)) for k in sorted(keys))
+
+    how = rng.choice(["mmd", "nll", "jsd", "own", "mmd-sigma-0", "nll-epsilon-0", "own-raises", "own-raises"])
+    if how == "mmd":
+        return evaluate_distribution_distance(a, b, compute_mmd, distance_measure_parameters={"sigma": 0.7})
+    if how == "nll":
+        return evaluate_distribution_distance(a, b, compute_clipped_negative_log_likelihood, distance_measure_parameters={"epsilon": 1e-6})
+    if how == "jsd":
+        return evaluate_distribution_distance(a, b, compute_jensen_shannon_divergence, distance_measure_parameters={"epsilon": 1e-6})
+    if how == "own":
+        return evaluate_distribution_distance(a, b, own, distance_measure_parameters={})
+    if how == "mmd-sigma-0":
+        return evaluate_distribution_distance(a, b, compute_mmd, distance_measure_parameters={"sigma": 0})
+    if how == "nll-epsilon-0":
+        return evaluate_distribution_distance(a, b, compute_clipped_negative_log_likelihood, distance_measure_parameters={"epsilon": 0})
+    return evaluate_distribution_distance(a, b, own, distance_measure_parameters={"fail": True})
+
+
 FOCUS = {
     "mixed": None,
     "circuits": ("circuit", "scircuit", "to_dict", "json", "save_circuit", "to_unitary", "free_symbols", "sim.",
                  "stepwise", "gate", "collect", "first-operation", "phase-circuit"),
     "operators": ("term", "sum", "scalar", "hash", "repr", "hermitian", "convert", "save_operator", "get_sparse",
                   "reverse", "get_expectation_value", "is_hermitian"),
-    "measurements": ("meas", "dist", "get_parities", "compute_mmd", "clipped", "jsd", "wf", "flip", "sample"),
+    "measurements": ("meas", "dist", "get_parities", "compute_mmd", "clipped", "jsd", "wf", "flip", "sample", "evaluate_distribution"),
 }
 
 
